@@ -1,8 +1,11 @@
 /-
   C15 — the command registry is a consistent name/alias map.
+  This file: the public `Commands` API.  The script-level commands (alias, unalias,
+  remove_command, is_command_defined, fn): Props/C15Script.lean (theorems `C15_script_…`).
 -/
 import DuckModel.Registry
 import DuckModel.Lemmas.RegistryLemmas
+import DuckModel.Props.C15Script
 
 namespace Duck
 
@@ -122,6 +125,10 @@ theorem C15_names_sorted (r : Reg) :
 /-- every registry reachable from the empty one satisfies the invariant -/
 theorem C15_invariant_reachable (ops : List RegOp) : ((Reg.run {} ops).1).Inv :=
   Reg.invP_run {} ops Reg.invP_empty
+
+/-- the invariant of the script-level theorems (`Reg.InvP` in Props/C15Script.lean, which this file
+    imports and therefore cannot use `Reg.Inv`) is this very invariant -/
+theorem C15_inv_iff_invP (r : Reg) : r.Inv ↔ r.InvP := Iff.rfl
 
 /-! ### non-vacuity -/
 
